@@ -327,6 +327,8 @@ func genContent(r *hx.Run, n int, textual bool) []byte {
 	return b
 }
 
+func init() { hx.Register("C18", Run) }
+
 // Run generates (or replays) the C18 cases.
 func Run(r *hx.Run, replay []hx.Case) {
 	if replay != nil {
